@@ -14,7 +14,7 @@ run() { # id file sed-expr description
   if ! (export GOFLAGS=-mod=mod GOPROXY=off GOSUMDB=off GOTOOLCHAIN=local; go build ./... >/dev/null 2>&1); then git checkout -- .; echo "| $id | $desc | does-not-compile |"; return; fi
   local log=/tmp/own_mutants/$id-$(echo "$desc" | tr -c 'a-zA-Z0-9' '_' | cut -c1-40).log
   local t0=$(date +%s)
-  (cd /verif && VERIF_BUDGET_S=${BUDGET:-300} ./check $id --tier quick > "$log" 2>&1); local rc=$?
+  (cd /verif && VERIF_EVIDENCE_DIR=/tmp/verif-mutant-evidence VERIF_BUDGET_S=${BUDGET:-300} ./check $id --tier quick > "$log" 2>&1); local rc=$?
   local t1=$(date +%s)
   git checkout -- .
   local n=$(grep -c '^VIOLATION' "$log")
